@@ -100,7 +100,7 @@ func c19Handshake(modDir string, rules []string, addr string) (out string, err e
 	}
 	var in bytes.Buffer
 	in.WriteString("@RSYNCD: 27\nmod\n--server\n--sender\n-r\n.\nmod/\n\n")
-	in.Write([]byte{0, 0, 0, 0})     // empty filter list
+	in.Write([]byte{0, 0, 0, 0})                                                 // empty filter list
 	in.Write([]byte{255, 255, 255, 255, 255, 255, 255, 255, 255, 255, 255, 255}) // -1 -1 -1: end of phases and goodbye
 	var outb bytes.Buffer
 	conn := rsyncd.NewConnection(&in, &outb, name)
